@@ -5,7 +5,7 @@
    Deviations that are genuine recorded defects are recognised by re-running the model under the policy that describes what the
    code does there ([num_code], key prefix parse, ...) and demanding byte equality with it. *)
 From Coq Require Import ZArith List Bool.
-From DG Require Import CaseFormat ProtoWireRef ThriftWire Json Num Base64 J2T.
+From DG Require Import CaseFormat ProtoWireRef ThriftWire Json Num Base64 J2T J2TWalk.
 Import ListNotations.
 Local Open Scope Z_scope.
 
@@ -311,4 +311,27 @@ Definition check_202 (fs : list field) : verdict :=
     | _ => VBad 97 []
     end
   | _ => VBad 99 []
+  end.
+
+(* ---- 211: the ALGORITHM-level model (J2TWalk.j2t_walk, the transcription of the portable converter's doRecurse) against the
+        PORTABLE converter (conv/j2tportable) on every generated document: bytes and error class must be exactly the walk's.
+        fields = descriptor, root type, option bits (1 DisallowUnknownField 2 String2Int64 4 NoBase64Binary 8 EnableValueMapping
+        16 WriteDefaultField 32 WriteRequireField 64 WriteOptionalField), text, error class, output. ---- *)
+Definition wopts02 (bits : Z) : wopts :=
+  mkWopts (Z.odd bits) (Z.odd (bits / 2)) (Z.odd (bits / 4)) (Z.odd (bits / 8)) (Z.odd (bits / 32)) (Z.odd (bits / 16)) (Z.odd (bits / 64)).
+
+Definition check_211 (fs : list field) : verdict :=
+  match parse_defs02 fs with
+  | None => VBad 99 []
+  | Some (D, r) =>
+    match parse_ty02 (S (length r)) r with
+    | Some (t, [FZ bits; FB text; FZ ec; FB out]) =>
+      if (ec =? 9) || (ec =? 10) then VBad 9 [] else
+      match j2t_walk D (wopts02 bits) t text with
+      | TUnmod => VSkip
+      | TOk b => if (ec =? 0) && bytes_eqb out b then VOk else VBad 1 [FB b; FZ ec]
+      | TErr c => if ec =? 0 then VBad 2 [FZ c] else if ec =? c then VOk else VBad 3 [FZ c; FZ ec]
+      end
+    | _ => VBad 96 []
+    end
   end.
